@@ -329,8 +329,40 @@ fn run_pd_new(r: &Req) -> String {
     let cones = parse_cones(r.str("cones"));
     let _g = InfGuard;
     clarabel::set_infinity(r.f("inf"));
-    let d = DefaultProblemData::<f64>::new(&r.csc("P"), &r.fs("q"), &r.csc("A"), &r.fs("b"), &cones, &settings(r.b("presolve")));
+    let d = DefaultProblemData::<f64>::new(&r.csc("P"), &r.fs("q"), &r.csc("A"), &r.fs("b"), &cones, &pd_settings(r));
     fmt_data(&d)
+}
+/// optional request key `chordal` (0/1, absent = 0): `chordal_decomposition_enable`
+fn req_chordal(r: &Req) -> bool {
+    r.has("chordal") && r.b("chordal")
+}
+fn pd_settings(r: &Req) -> DefaultSettings<f64> {
+    let mut st = settings(r.b("presolve"));
+    st.chordal_decomposition_enable = req_chordal(r);
+    st
+}
+fn has_large_psd(cones: &[SupportedConeT<f64>]) -> bool {
+    cones.iter().any(|c| matches!(c, PSDTriangleConeT(d) if *d > 3))
+}
+/// `chordal=1` without a PSD cone of side > 3: nothing is decomposed and the constructed object
+/// is the one built with the switch off (model theorem `C09.chordal_switch`)
+fn oracle_pd_new_chordal(r: &Req, out: &str) -> Result<(), String> {
+    let cones = parse_cones(r.str("cones"));
+    if !req_chordal(r) || has_large_psd(&cones) {
+        return Ok(());
+    }
+    let _g = InfGuard;
+    clarabel::set_infinity(r.f("inf"));
+    let (p, q, a, b) = (r.csc("P"), r.fs("q"), r.csc("A"), r.fs("b"));
+    let on = DefaultProblemData::<f64>::new(&p, &q, &a, &b, &cones, &pd_settings(r));
+    if clarabel::solver::implementations::default::verif_problemdata::is_chordal_decomposed(&on) {
+        return Err("chordal decomposition happened without a PSD cone of side > 3".into());
+    }
+    let off = DefaultProblemData::<f64>::new(&p, &q, &a, &b, &cones, &settings(r.b("presolve")));
+    if fmt_data(&off) != out {
+        return Err(format!("chordal_decomposition_enable changed the constructed object; switch off: {}", fmt_data(&off)));
+    }
+    Ok(())
 }
 fn oracle_pd_new(r: &Req, out: &str) -> Result<(), String> {
     let cones = parse_cones(r.str("cones"));
@@ -387,7 +419,7 @@ fn oracle_pd_new(r: &Req, out: &str) -> Result<(), String> {
     if !presolve && rows.len() != b.len() {
         return Err("rows dropped with presolve off".into());
     }
-    Ok(())
+    oracle_pd_new_chordal(r, out)
 }
 
 // ---------------------------------------------------------------- infbound.history
@@ -578,6 +610,194 @@ fn oracle_solve(r: &Req, out: &str) -> Result<(), String> {
     Ok(())
 }
 
+// ---------------------------------------------------------------- presolve.hand_reduced
+// `DefaultProblemData::new` (presolve on) on the user's problem  vs  `DefaultProblemData::new`
+// (presolve off) on the user's hand-reduced problem: the internal data must be the same object
+// up to the presolver record (model theorem `problemdata_new_hand_reduced`).
+
+/// the hand reduction a user would do on the ORIGINAL data (the same construction as in
+/// `run_solve`): keep flags, `A` rows by the harness's own structural selection, `b` rows,
+/// NN-like cones shrunk to their kept count (possibly 0), other cones cloned
+fn hand_reduce(
+    a: &CscMatrix<f64>,
+    b: &[f64],
+    cones: &[SupportedConeT<f64>],
+    inf: f64,
+) -> (Vec<bool>, CscMatrix<f64>, Vec<f64>, Vec<SupportedConeT<f64>>) {
+    let nn = nn_rows_user(cones);
+    let keep: Vec<bool> = (0..b.len()).map(|i| !(nn[i] && b[i] > thr(inf))).collect();
+    let mut rcones = vec![];
+    for (c, rg) in cones.iter().zip(ranges(cones)) {
+        if matches!(c, NonnegativeConeT(_) | SecondOrderConeT(1) | PSDTriangleConeT(1)) {
+            let k = rg.filter(|&i| keep[i]).count();
+            rcones.push(NonnegativeConeT(k));
+        } else {
+            rcones.push(c.clone());
+        }
+    }
+    let da = gen::to_dense(a);
+    let rows: Vec<usize> = (0..b.len()).filter(|&i| keep[i]).collect();
+    let mut colptr = vec![0];
+    let (mut rowval, mut nzval) = (vec![], vec![]);
+    for j in 0..a.n {
+        for (k, &i) in rows.iter().enumerate() {
+            // structural entries of A are kept (explicit zeros included)
+            let stored = (a.colptr[j]..a.colptr[j + 1]).any(|t| a.rowval[t] == i);
+            if stored {
+                rowval.push(k);
+                nzval.push(da[i][j]);
+            }
+        }
+        colptr.push(rowval.len());
+    }
+    let ra = CscMatrix::new(rows.len(), a.n, colptr, rowval, nzval);
+    let rb: Vec<f64> = rows.iter().map(|&i| b[i]).collect();
+    (keep, ra, rb, rcones)
+}
+
+fn prefix_tokens(p: &str, line: &str) -> String {
+    line.split_whitespace().map(|t| format!("{}{}", p, t)).collect::<Vec<_>>().join(" ")
+}
+
+/// the keys of `fmt_data` that describe the internal problem (everything but the presolver part)
+const DATA_KEYS: [&str; 20] = [
+    "Pm", "Pn", "Pcolptr", "Prowval", "Pnzval", "q", "Am", "An", "Acolptr", "Arowval", "Anzval", "b", "cones", "n", "m", "d",
+    "dinv", "e", "einv", "c",
+];
+
+fn run_hand_reduced(r: &Req) -> String {
+    let cones = parse_cones(r.str("cones"));
+    let (p, q, a, b, inf) = (r.csc("P"), r.fs("q"), r.csc("A"), r.fs("b"), r.f("inf"));
+    let _g = InfGuard;
+    clarabel::set_infinity(inf);
+    let full = DefaultProblemData::<f64>::new(&p, &q, &a, &b, &cones, &settings(true));
+    let (keep, ra, rb, rcones) = hand_reduce(&a, &b, &cones, inf);
+    let red = DefaultProblemData::<f64>::new(&p, &q, &ra, &rb, &rcones, &settings(false));
+    format!(
+        "{} {} {}",
+        Line::out().bs("keep", &keep).csc("hA", &ra).fs("hb", &rb).s("hcones", &fmt_cones(&rcones)).done(),
+        prefix_tokens("f.", &fmt_data(&full)),
+        prefix_tokens("r.", &fmt_data(&red))
+    )
+}
+/// every `DATA_KEYS` field of the records prefixed `f.` and `r.` is identical, bit for bit
+fn same_internal_data(o: &Req) -> Result<(), String> {
+    for k in DATA_KEYS {
+        let (fk, rk) = (format!("f.{}", k), format!("r.{}", k));
+        if !o.has(&fk) || !o.has(&rk) {
+            return Err(format!("response lacks {} / {}", fk, rk));
+        }
+        if o.str(&fk) != o.str(&rk) {
+            return Err(format!(
+                "internal data field `{}` differs: presolve-on {} vs new(hand-reduced) {}",
+                k,
+                o.str(&fk),
+                o.str(&rk)
+            ));
+        }
+    }
+    Ok(())
+}
+fn oracle_hand_reduced(r: &Req, out: &str) -> Result<(), String> {
+    let cones = parse_cones(r.str("cones"));
+    let (a, b) = (r.csc("A"), r.fs("b"));
+    if numel(&cones) != b.len() || a.m != b.len() {
+        return Ok(());
+    }
+    no_panic(out)?;
+    let o = resp(out);
+    same_internal_data(&o)?;
+    if !o.has("r.pres") || o.b("r.pres") {
+        return Err("new(hand-reduced problem) with presolve off recorded a presolver".into());
+    }
+    let keep = o.bs("keep");
+    let kept = keep.iter().filter(|&&k| k).count();
+    if o.b("f.pres") != (kept < b.len()) {
+        return Err(format!("presolver present={} but hand reduction drops {} rows", o.b("f.pres"), b.len() - kept));
+    }
+    if o.b("f.pres") && o.bs("f.keep") != keep {
+        return Err("presolver keep vector differs from the hand reduction's".into());
+    }
+    if o.u("r.m") != kept || o.u("f.m") != kept {
+        return Err(format!("m: presolve-on {} hand-reduced {} expected {}", o.u("f.m"), o.u("r.m"), kept));
+    }
+    Ok(())
+}
+
+// ---------------------------------------------------------------- presolve.solve_exact (oracle only)
+// as `presolve.solve`, but the two solvers must agree BIT FOR BIT: their internal (equilibrated)
+// data are the same object (theorem `problemdata_new_hand_reduced`), and the solver is a
+// deterministic function of its internal data.
+
+fn run_solve_exact(r: &Req) -> String {
+    let cones = parse_cones(r.str("cones"));
+    let (p, q, a, b, inf) = (r.csc("P"), r.fs("q"), r.csc("A"), r.fs("b"), r.f("inf"));
+    let _g = InfGuard;
+    clarabel::set_infinity(inf);
+    let mut full = DefaultSolver::<f64>::new(&p, &q, &a, &b, &cones, solve_settings(true));
+    // a later change of the module-level bound must not affect the built solver
+    clarabel::set_infinity(inf * 0.5);
+    full.solve();
+    clarabel::set_infinity(inf);
+    let (keep, ra, rb, rcones) = hand_reduce(&a, &b, &cones, inf);
+    let mut red = DefaultSolver::<f64>::new(&p, &q, &ra, &rb, &rcones, solve_settings(false));
+    red.solve();
+    let l = Line::out()
+        .s("fstatus", &format!("{:?}", full.solution.status))
+        .s("rstatus", &format!("{:?}", red.solution.status))
+        .u("fiter", full.solution.iterations as usize)
+        .u("riter", red.solution.iterations as usize)
+        .fs("fx", &full.solution.x)
+        .fs("fs", &full.solution.s)
+        .fs("fz", &full.solution.z)
+        .fs("rx", &red.solution.x)
+        .fs("rs", &red.solution.s)
+        .fs("rz", &red.solution.z)
+        .fs("fobj", &[full.solution.obj_val, full.solution.obj_val_dual, full.solution.r_prim, full.solution.r_dual])
+        .fs("robj", &[red.solution.obj_val, red.solution.obj_val_dual, red.solution.r_prim, red.solution.r_dual])
+        .bs("keep", &keep)
+        .done();
+    // the solvers' internal data after the solve (equilibrated P, q, A, b; d, e, c)
+    format!("{} {} {}", l, prefix_tokens("f.", &fmt_data(&full.data)), prefix_tokens("r.", &fmt_data(&red.data)))
+}
+fn oracle_solve_exact(r: &Req, out: &str) -> Result<(), String> {
+    let b = r.fs("b");
+    let inf = r.f("inf");
+    no_panic(out)?;
+    let o = resp(out);
+    let keep = o.bs("keep");
+    same_internal_data(&o)?;
+    if o.str("fstatus") != o.str("rstatus") {
+        return Err(format!("status {} (presolve) vs {} (hand-reduced)", o.str("fstatus"), o.str("rstatus")));
+    }
+    if o.u("fiter") != o.u("riter") {
+        return Err(format!("iterations {} vs {}", o.u("fiter"), o.u("riter")));
+    }
+    if o.str("fx") != o.str("rx") {
+        return Err(format!("x not bit-identical: {} vs {}", o.str("fx"), o.str("rx")));
+    }
+    if o.str("fobj") != o.str("robj") {
+        return Err(format!("obj_val/obj_val_dual/r_prim/r_dual not bit-identical: {} vs {}", o.str("fobj"), o.str("robj")));
+    }
+    let (fs, fz, rs, rz) = (o.fs("fs"), o.fs("fz"), o.fs("rs"), o.fs("rz"));
+    let kept = keep.iter().filter(|&&k| k).count();
+    if fs.len() != b.len() || fz.len() != b.len() || rs.len() != kept || rz.len() != kept {
+        return Err(format!("|s|={} |z|={} expected m={}; reduced |s|={} |z|={} expected {}", fs.len(), fz.len(), b.len(), rs.len(), rz.len(), kept));
+    }
+    let mut ctr = 0;
+    for i in 0..b.len() {
+        if keep[i] {
+            if fs[i].to_bits() != rs[ctr].to_bits() || fz[i].to_bits() != rz[ctr].to_bits() {
+                return Err(format!("kept row {}: (s,z)=({},{}) not bit-identical to reduced ({},{})", i, ff(fs[i]), ff(fz[i]), ff(rs[ctr]), ff(rz[ctr])));
+            }
+            ctr += 1;
+        } else if fs[i].to_bits() != inf.to_bits() || fz[i].to_bits() != 0 {
+            return Err(format!("dropped row {}: (s,z)=({},{}) expected ({},0)", i, fs[i], fz[i], inf));
+        }
+    }
+    Ok(())
+}
+
 fn channels() -> Vec<Channel> {
     vec![
         Channel { name: "cones.new_collapsed", tol: Tol::Exact, run: run_new_collapsed, oracle: Some(oracle_new_collapsed),
@@ -597,6 +817,11 @@ fn channels() -> Vec<Channel> {
             lean: "Presolve.InfWorld / C09.bound_history" },
         Channel { name: "presolve.solve", tol: Tol::Exact, run: run_solve, oracle: Some(oracle_solve),
             modelled: false, rust_fn: "DefaultSolver::new + solve (presolve on) vs hand-reduced (presolve off)", lean: "-" },
+        Channel { name: "presolve.hand_reduced", tol: Tol::Exact, run: run_hand_reduced, oracle: Some(oracle_hand_reduced),
+            modelled: true, rust_fn: "DefaultProblemData::new (presolve on) vs DefaultProblemData::new (presolve off) on the hand-reduced problem",
+            lean: "Presolve.handReduce / handReduceCones / Presolve.problemdata_new_hand_reduced" },
+        Channel { name: "presolve.solve_exact", tol: Tol::Exact, run: run_solve_exact, oracle: Some(oracle_solve_exact),
+            modelled: false, rust_fn: "DefaultSolver::new + solve (presolve on) vs hand-reduced (presolve off), bit-exact incl. internal data", lean: "-" },
     ]
 }
 
@@ -675,6 +900,28 @@ fn submit_all_for(s: &mut Session, cones: &[SupportedConeT<f64>], b: &[f64], inf
     }
     for presolve in [true, false] {
         s.submit(Line::new("problemdata.new").csc("P", &p).fs("q", &q).csc("A", &a).fs("b", b).s("cones", &cs).b("presolve", presolve).f("inf", inf).done());
+    }
+    // the chordal switch on a cone list without a PSD cone of side > 3 (never with one: the
+    // model answers `err:chordal-not-modelled` there by design)
+    if !has_large_psd(cones) && s.rng.bool(0.25) {
+        for presolve in [true, false] {
+            s.submit(Line::new("problemdata.new").csc("P", &p).fs("q", &q).csc("A", &a).fs("b", b).s("cones", &cs).b("presolve", presolve).f("inf", inf).u("chordal", 1).done());
+        }
+        s.count("problemdata.new:chordal=1");
+        if let Some(d) = cones.iter().filter_map(|c| if let PSDTriangleConeT(d) = c { Some(*d) } else { None }).max() {
+            s.count(&format!("problemdata.new:chordal=1:max-psd-side={}", d));
+        }
+    }
+    let out = s.submit(Line::new("presolve.hand_reduced").csc("P", &p).fs("q", &q).csc("A", &a).fs("b", b).s("cones", &cs).f("inf", inf).done());
+    let o = resp(&out);
+    if o.has("keep") {
+        let dropped = o.bs("keep").iter().filter(|&&k| !k).count();
+        s.count(&format!("hand-reduced:dropped-rows={}", if dropped == m && m > 0 { "all".to_string() } else { dropped.min(4).to_string() }));
+        if cones.iter().any(|c| matches!(c, SecondOrderConeT(1) | PSDTriangleConeT(1) | NonnegativeConeT(0))) {
+            s.count("hand-reduced:with-SOC1/PSD1/NN0");
+        }
+    } else {
+        s.count("hand-reduced:panic");
     }
 }
 
@@ -863,6 +1110,7 @@ fn solves(s: &mut Session) {
             }
         }
         let out = s.submit(Line::new("presolve.solve").csc("P", &p).fs("q", &q).csc("A", &a).fs("b", &b).s("cones", &fmt_cones(&cones)).f("inf", inf).done());
+        s.submit(Line::new("presolve.solve_exact").csc("P", &p).fs("q", &q).csc("A", &a).fs("b", &b).s("cones", &fmt_cones(&cones)).f("inf", inf).done());
         let o = resp(&out);
         if o.has("fstatus") {
             s.count(&format!("solve-status:{}", o.str("fstatus")));
